@@ -196,21 +196,22 @@ pub async fn exec_602(a: &Args) -> Args {
         }
     };
     // the backlog: complete, finished WebTransport streams of the live session that nobody accepts
+    // a[0][4] = 1: the streams stall inside their preamble instead (one byte, left open): nothing of them
+    // may keep the session from ending (C07)
+    let stalled = a[0].get(4).copied().unwrap_or(0) == 1;
     let mut keep = vec![];
     for i in 0..count {
         if kind == 0 {
             if let Ok(mut s) = raw.conn.open_uni().await {
                 let mut b = vec![0x40u8, 0x54, 0x00];
                 b.extend(format!("backlog-{}", i).as_bytes());
-                let _ = s.write_all(&b).await;
-                let _ = s.finish();
+                if stalled { let _ = s.write_all(&b[..1]).await; } else { let _ = s.write_all(&b).await; let _ = s.finish(); }
                 keep.push(s);
             }
         } else if let Ok((mut s, r)) = raw.conn.open_bi().await {
             let mut b = vec![0x40u8, 0x41, 0x00];
             b.extend(format!("backlog-{}", i).as_bytes());
-            let _ = s.write_all(&b).await;
-            let _ = s.finish();
+            if stalled { let _ = s.write_all(&b[..1]).await; } else { let _ = s.write_all(&b).await; let _ = s.finish(); }
             keep.push(s);
             std::mem::forget(r);
         }
@@ -256,7 +257,8 @@ pub fn oracle_602(a: &Args, out: &Args) -> Option<(&'static str, String)> {
     }
     if out.len() >= 12 {
         let (h, r) = (&out[10], &out[11]);
-        if out[9] != vec![a[0][1]] || *h != vec![1, a[0][2]] || *r != a[1] {
+        let want = if a[0].get(4).copied().unwrap_or(0) == 1 { 0 } else { a[0][1] };
+        if out[9] != vec![want] || *h != vec![1, a[0][2]] || *r != a[1] {
             return Some(("C09+C08", format!("{} streams were waiting when the peer closed the session with code {}: an application draining them afterwards was handed {} and then got {:?} / reason {:?} (expected all of them, then the peer's code and reason)", a[0][1], a[0][2], out[9][0], h, r)));
         }
     }
@@ -279,6 +281,13 @@ pub fn generate_backlog(rng: &mut Rng, thorough: bool) -> Vec<Case> {
             if !thorough && role == 1 && n != 6 { continue; }
             let code = rng.below(1 << 32);
             cs.push(Case::new(602, vec![vec![kind, n, code, role], crate::b2s("bye-backlog")], "backlog-then-close"));
+        }
+    }
+    // the same with streams stalled inside their preamble
+    for (kind, n) in [(0u64, 1u64), (1, 1), (0, 6), (1, 3)] {
+        for role in [0u64, 1] {
+            if !thorough && role == 1 && n != 1 { continue; }
+            cs.push(Case::new(602, vec![vec![kind, n, rng.below(1 << 32), role, 1], crate::b2s("bye-stalled")], "stalled-then-close"));
         }
     }
     cs
@@ -476,6 +485,12 @@ pub fn generate(rng: &mut Rng, thorough: bool) -> Vec<Case> {
     for m in &masks {
         cs.push(Case::new(601, vec![vec![0, 0, *m], vec![], vec![]], "clean-fin"));
         cs.push(Case::new(601, vec![vec![1, 99, *m], vec![], vec![]], "reset"));
+        // a reset is a reset whatever its code says: H3_NO_ERROR, 0, the code the library itself uses
+        for code in [0x100u64, 0, 0x10c] {
+            if *m == 7 || code == 0x100 {
+                cs.push(Case::new(601, vec![vec![1, code, *m], vec![], vec![]], "reset-with-benign-code"));
+            }
+        }
         cs.push(Case::new(601, vec![vec![0, 0, *m], vec![0, 5, 1, 2], vec![]], "fin-inside-frame"));
     }
     cs.push(Case::new(601, vec![vec![0, 0, 7], b2a(&raw_frame(0x21, &[7])), vec![]], "grease-then-fin"));
@@ -524,6 +539,7 @@ pub fn generate(rng: &mut Rng, thorough: bool) -> Vec<Case> {
             cs.push(Case::new(601, vec![vec![3, 0, m, 1], b2a(&cap), vec![]], "client-close-capsule"));
             cs.push(Case::new(601, vec![vec![0, 0, m, 1], vec![], vec![]], "client-clean-fin"));
             cs.push(Case::new(601, vec![vec![1, 99, m, 1], vec![], vec![]], "client-reset"));
+            cs.push(Case::new(601, vec![vec![1, 0x100, m, 1], vec![], vec![]], "client-reset-with-benign-code"));
             cs.push(Case::new(601, vec![vec![2, (1 << 40) + 3, m, 1], vec![], b2a(b"srv-bye")], "client-peer-quic-close"));
             cs.push(Case::new(601, vec![vec![4, 12, m, 1], vec![], b2a(b"cli-bye")], "client-local-close"));
         }
